@@ -74,8 +74,8 @@ R = [
     (r"^filters::png::decode_frame$", r"alloc:resize", r"", "SAFE", "preceded by try_reserve(bytes_per_row)? on the same empty vector", [{'kind': 'call-arg', 'fn': 'filters::png::decode_frame', 'callee': 'Vec::<.*>::try_reserve$', 'arg': 1, 'matches': '^\\$\\d+$'}]),
     (r"^filters::png::decode_frame$", r"overflow:Add|index:RangeFrom", r"pos", "SAFE", "pos < content.len() (loop condition), then read_exact of bytes_per_row succeeded: pos + 1 + bytes_per_row <= len", [{'kind': 'dominating', 'cond': '^Lt\\(\\$\\d+,len\\(&\\*\\$\\d+\\)\\)$', 'truth': True, 'where': 'self'}]),
     (r"^filters::png::decode_row$", r"bounds", r"len\(previous\)", "SAFE", "precondition previous.len() >= current.len(): the only in-crate caller decode_frame resizes both rows to bytes_per_row"),
-    (r"^parser::(_indirect_object|integer|real|stream)$", r"overflow:Sub|index:RangeTo", r"", "SAFE", "i is the remainder nom returned for `input`: a suffix, so i.len() <= input.len()"),
-    (r"^parser::(integer|real)$", r"unwrap", r"from_utf8", "SAFE", "the consumed prefix matched only ASCII sign/digits/'.'"),
+    (r"^parser::(_indirect_object|integer|real|big_integer|stream)$", r"overflow:Sub|index:RangeTo", r"", "SAFE", "i is the remainder nom returned for `input`: a suffix, so i.len() <= input.len()"),
+    (r"^parser::(integer|real|big_integer)$", r"unwrap", r"from_utf8", "SAFE", "the consumed prefix matched only ASCII sign/digits/'.'"),
     (r"^parser::(hex_char|oct_char|unsigned_int)::\{closure#\d\}$", r"unwrap", r"from_utf8", "SAFE", "the preceding combinator admitted only ASCII hex/octal/decimal digits"),
     (r"^parser::cmap_parser::source_code", r"", r"", "SAFE", "at most 4 bytes (zip with 0..4): 256^i * byte < 2^32 and the sum < 2^32"),
     (r"^parser::(escape_sequence|name)::\{closure#\d\}$", r"bounds", r"len\(rawptr\),0", "SAFE", "c is the output of take(1): exactly one byte"),
